@@ -39,7 +39,11 @@ def only_err_returns(body, start):
 
 
 SCANS = {"core::iter::traits::iterator::Iterator::find": "found=Some", "core::iter::traits::iterator::Iterator::position": "found=Some",
-         "core::iter::traits::iterator::Iterator::any": "found=true", "core::iter::traits::iterator::Iterator::all": "found=false"}
+         "core::iter::traits::iterator::Iterator::any": "found=true", "core::iter::traits::iterator::Iterator::all": "found=false",
+         # searching from the back decides "is there such a character" the same way (only the reported position differs)
+         "core::iter::traits::double_ended::DoubleEndedIterator::rfind": "found=Some",
+         "core::iter::traits::iterator::Iterator::rposition": "found=Some",
+         "core::iter::traits::iterator::Iterator::find_map": "found=Some"}
 # receivers of a scan may be derived from the validated string only through these
 SCAN_RECEIVER_OK = {"core::str::<impl str>::char_indices", "core::str::<impl str>::chars", "core::str::<impl str>::bytes",
                     "core::slice::<impl [T]>::iter", "core::str::<impl str>::as_bytes", "core::iter::traits::iterator::Iterator::enumerate",
